@@ -410,10 +410,7 @@ func oracle(r result) (string, string) {
 		}
 		ended := (o.Op.Kind == "read" && o.Err == "eof") || (o.Op.Kind != "read" && o.Err == "ok")
 		if ended && sawErr {
-			// the stream failed earlier; a later clean end of stream is only acceptable if the transport is exhausted and nothing was handed over
-			if len(o.Bytes) > 0 {
-				return c.Dir + ":data-after-error", c.Kind
-			}
+			// the stream failed earlier: only the prefix rule above applies to what later calls hand over
 			continue
 		}
 		if ended {
